@@ -82,7 +82,9 @@ def gen(rng, tier):
                             'lat': rng.choice([0, 0, 0.001, 0.01, 0.05])})
             else:
                 ops.append({'op': 'stream', 'ps': [_payload(rng, next(seqs)) for _ in range(rng.choice([1, 3, 6]))],
-                            'lats': [rng.choice([0, 0.001, 0.02]) for _ in range(3)], 'return_x': rng.random() < 0.5})
+                            'lats': [rng.choice([0, 0.001, 0.02]) for _ in range(3)], 'return_x': rng.random() < 0.5,
+                            # a data iterable that is itself slow (multiples of the client's 0.1 s polling interval included)
+                            'src_gaps': [rng.choice([0, 0, 0, 0.05, 0.1, 0.1, 0.2, 0.3]) for _ in range(3)]})
         threads.append({'ops': ops})
     sc = {'threads': threads, 'nconn': rng.choice([1, 1, 2, 4]), 'frag': rng.choice([0.0, 0.5, 0.9])}
     nhuge = sum(1 for t in threads for op in t['ops'] for p in ([op['p']] if op['op'] == 'request' else op['ps']) if p['kind'] == 'huge')
@@ -314,8 +316,20 @@ def run(sim, sc):
             else:
                 xs = [mk_payload(p) for p in op['ps']]
                 got = []
+                gaps = op.get('src_gaps') or [0]
+
+                def slow_iter(xs=xs, gaps=gaps):
+                    for j, x in enumerate(xs):
+                        g = gaps[j % len(gaps)]
+                        if g:
+                            time.sleep(g)
+                        yield x
+                    g = gaps[len(xs) % len(gaps)]
+                    if g:
+                        time.sleep(g)
+
                 try:
-                    for z in client.stream('/echo', xs, return_x=op['return_x'], return_exceptions=True, response_timeout=200):
+                    for z in client.stream('/echo', slow_iter(), return_x=op['return_x'], return_exceptions=True, response_timeout=200):
                         got.append(z)
                 except Exception as e:
                     got.append(('STREAM-RAISED', e))
